@@ -78,6 +78,7 @@ Verdict(r) ==
         p    == IF lexed THEN Parse(ts) ELSE SyntaxErr
     IN
     IF r.compile.o = "crash" THEN "crash"
+    ELSE IF Has(r, "exec") /\ r.exec.o = "crash" THEN "exec-crash"
     ELSE IF r.compile.o = "err" /\ r.compile.c # "syntax" THEN "compile-error-not-syntax"
     ELSE IF r.compile.o = "err" /\ ~InSource(lens, r.compile.line, r.compile.col) THEN "error-location-outside-source"
     ELSE IF \E i \in 1..Len(ts) : ~(InSource(lens, ts[i].sp[1], ts[i].sp[2]) /\ InSource(lens, ts[i].sp[3], ts[i].sp[4])) THEN "token-span-outside-source"
